@@ -5,6 +5,9 @@ from sym import fmt, walk
 import stdmodel as SM
 
 LEVEL = 'proof'
+# totality is a proof obligation: a panic source the prover cannot discharge is an alarm (sound over-approximation), and a broken
+# positive control is fatal
+FATAL_UNDECIDED = True
 NEED_FIXTURE = True
 ROLES = ['lib']
 EXPLANATION = ('R20.1: HIR scan of the library crate for user-written unsafe blocks / unsafe fns / unsafe impls (0 expected; '
